@@ -26,6 +26,8 @@ def _install():
 
 
 def worker(cfg, tier='quick'):
+    if cfg.startswith('metropolis'):
+        return w_metropolis(cfg, tier)
     _install()
     from panqec.error_models import PauliErrorModel, BaseErrorModel
     col = hz.Collector(cfg)
@@ -107,11 +109,132 @@ def worker(cfg, tier='quick'):
     return col.result()
 
 
+def w_metropolis(cfg, tier):
+    """The Metropolis step of the splitting method: SplittingSimulation.get_next_error must accept with
+    probability exp(min(0, log P(new) - log P(previous))) where both log-probabilities come from THIS
+    simulation's own noise model for exactly these two errors, and must return the log-probability of the
+    error it returns.  Two simulations with different noise models are stepped one after the other."""
+    import panqec.simulation._splitting_simulation as ss
+    from symx.core import uf, engine as _engine
+    from symx.stubs import SymRng
+    code = common.make_code(cfg.split(' ')[1])
+    n = code.n
+    col = hz.Collector(cfg)
+    col.encoded(ss.SplittingSimulation.get_next_error)
+    install(ss)
+
+    class LogModel:
+        """Noise model stub: every (error, rate) gets its own symbolic log-probability."""
+        id = 'LogModel'
+        params = {}
+
+        def __init__(self, tag):
+            self.tag = tag
+            self.asked = []
+
+        def probability_distribution(self, code_, rate):
+            return tuple(np.full(code_.n, 0.25) for _ in range(4))
+
+        def error_probability(self, error, code_, rate, log_output=False):
+            key = ''.join(str(int(x)) for x in np.asarray(error).reshape(-1))
+            t = z3.Real(f'lp_{self.tag}_{key}')
+            self.asked.append((key, rate, log_output, t))
+            return SymReal(t)
+
+    class ZeroDecoder:
+        id = 'Zero'
+        params = {}
+        label = 'zero'
+
+        def decode(self, syndrome, **k):
+            return np.zeros(2 * n, dtype=np.uint8)
+
+    class FakeRandom:
+        def __init__(self):
+            self.rng = SymRng('mc')
+            self.accept = []
+
+        def choice(self, a, p=None, **k):
+            if p is not None:
+                self.accept.append(p)
+                b = Bit(z3.Bool(_engine().path_name('accept')))
+                return b
+            r_ = self.rng.choice(list(range(a)) if isinstance(a, (int, np.integer)) else list(a))
+            return int(r_) if isinstance(a, (int, np.integer)) else r_      # qubit index: realised
+    prev = np.asarray(code.logicals_x[0]).copy()
+    eng = Engine(name=cfg, max_paths=20000)
+    saved = ss.np
+    try:
+        with eng:
+            def fn():
+                out = []
+                sims = []
+                for tag in ('A', 'B'):
+                    m_ = LogModel(tag)
+                    sim = ss.SplittingSimulation.__new__(ss.SplittingSimulation)
+                    sim.code, sim.error_model = code, m_
+                    sims.append((sim, m_))
+                for sim, m_ in sims:                    # A first, then B: same error, same rate
+                    fr = FakeRandom()
+                    ss.np.random = fr                    # module-global numpy proxy: only `random` is scripted
+                    nxt, lp = sim.get_next_error(ZeroDecoder(), 0.125, prev.copy())
+                    out.append(dict(tag=m_.tag, next=[int(x) for x in np.asarray(nxt)], lp=lp, asked=list(m_.asked),
+                                    accept=list(fr.accept)))
+                return out
+            ps = eng.explore(fn)
+    finally:
+        try:
+            del ss.np.random
+        except Exception:
+            pass
+    col.absorb(eng)
+    bad_q, bad_lp, bad_own = [], [], []
+    for p in ps:
+        if p.exc is not None:
+            r, m, dt = col.solve(p.pc)
+            col.record('C18/metropolis/no-exception', r, dt, True, None, f'{type(p.exc).__name__}: {p.exc}')
+            continue
+        for rec in p.value:
+            prev_key = ''.join(str(int(x)) for x in prev)
+            asked = {k_: t for k_, rate, lo, t in rec['asked'] if lo and rate == 0.125}
+            own = prev_key in asked and len(asked) == 2
+            bad_own.append(z3_and(p.pc + [z3.BoolVal(not own)]))
+            if not own:
+                continue
+            lpp = asked[prev_key]
+            lpn = [t for k_, t in asked.items() if k_ != prev_key][0]
+            if len(rec['accept']) != 1:
+                bad_q.append(z3_and(p.pc))
+                continue
+            pr = rec['accept'][0]
+            q = term_of(pr[1], 'real')
+            d_ = lpn - lpp
+            want_q = z3.If(d_ < 0, uf('exp')(d_), z3.RealVal(1))
+            bad_q.append(z3_and(p.pc + [z3.Or(q != want_q, term_of(pr[0], 'real') != 1 - want_q)]))
+            nxt_key = ''.join(map(str, rec['next']))
+            want_lp = asked.get(nxt_key)
+            bad_lp.append(z3_and(p.pc + [z3.BoolVal(want_lp is None) if want_lp is None
+                                         else term_of(rec['lp'], 'real') != want_lp]))
+    w = lambda m: dict(model=str(m)[:300], metropolis=True)
+    col.prove('C18/metropolis/uses-this-simulations-own-log-probabilities', [], z3_or(bad_own), w,
+              'get_next_error asks its own error_model for log P(previous) and log P(new), every call, for both of two '
+              'simulations stepped one after the other')
+    col.prove('C18/metropolis/acceptance-is-exp-min-0-log-ratio', [], z3_or(bad_q), w,
+              'probabilities handed to the accept/reject draw are (1-q, q) with q = exp(min(0, logP(new)-logP(previous)))')
+    col.prove('C18/metropolis/returned-log-probability-belongs-to-the-returned-error', [], z3_or(bad_lp), w)
+    return col.result()
+
+
 def replay(path):
     from panqec.error_models import PauliErrorModel
     with open(path) as f:
         d = json.load(f)
     w, oid, cfg = d['witness'], d['oid'], d['config']
+    if cfg.startswith('metropolis'):
+        res = w_metropolis(cfg, 'quick')
+        bad = any(o['oid'] == oid and o['verdict'] == 'sat' for o in res['obs'])
+        print('REPLAY', 'reproduced' if bad else 'not-reproduced', oid, cfg)
+        return 0
     code = common.make_code(cfg)
     n = code.n
     e = np.array(w['error'], dtype=np.uint8)
@@ -143,9 +266,9 @@ def replay(path):
 
 
 def configs(tier):
-    c = ['RotatedPlanar2DCode(2,2)', 'Toric2DCode(2,3)', 'Toric3DCode(2,2,2)/XZZX/z']
+    c = ['RotatedPlanar2DCode(2,2)', 'Toric2DCode(2,3)', 'Toric3DCode(2,2,2)/XZZX/z', 'metropolis RotatedPlanar2DCode(2,2)']
     if tier != 'quick':
-        c += ['Planar2DCode(3,3)/XY', 'RhombicPlanarCode(2,2,2)/Checkerboard_XZZX', 'XCubeCode(2,2,2)',
+        c += ['metropolis Planar2DCode(2,2)', 'Planar2DCode(3,3)/XY', 'RhombicPlanarCode(2,2,2)/Checkerboard_XZZX', 'XCubeCode(2,2,2)',
               'Color666PlanarCode(2,2)', 'RotatedPlanar3DCode(3,3,3)']
     return c
 
@@ -168,7 +291,7 @@ def main(argv=None):
                     note='the per-qubit statement does not depend on n; configurations only vary n'),
         stubs=['PauliErrorModel.probability_distribution -> arbitrary distributions',
                'module-global np of _base_error_model -> symx NpProxy (allocation + observation point)'],
-        outside=['the splitting simulation\'s Metropolis loop (it consumes this value)', 'float rounding'])
+        outside=['the rest of the splitting simulation (initial error, the outer loop, compute_optimal_c)', 'float rounding'])
 
 
 if __name__ == '__main__':
